@@ -38,7 +38,9 @@ RULE = ("random scenes: 2-4 rectangles in own grid cells with 1-5 pins each (pro
         "inside offsets, masks 0..15, exclusive default/forced, costs), 0-2 junctions, 1-6 connectors (pin/junction/"
         "free ends, 0-3 checkpoints), orthogonal/polyline/mixed routers, buffer 0/2/4/8; history of 1-4 (quick) or "
         "2-7 (thorough) transactions of moves, resizes, junction moves, connector add/delete, pin/shape deletion, "
-        "exclusivity toggles, re-targeting of a connector end (setSourceEndpoint/setDestEndpoint to another pin class, "
+        "exclusivity toggles, moves/resizes of shapes (pins already added) and junctions in the same transaction as their creation "
+        "(at set-up before the first processTransaction and for a shape / junction added later in the history, each with a connector "
+        "attached), re-targeting of a connector end (setSourceEndpoint/setDestEndpoint to another pin class, "
         "a junction or a free point) in the same transaction as moves of the old and/or new object. A case is non-trivial if at least one pin-attached end was checked after a move/resize.")
 TRUSTED_BASE = ["Lean 4.33 kernel", "axioms: propext, Classical.choice, Quot.sound", "Lean compiler for the driver",
                 "harness/c11.cpp generator + hex-float import", "IEEE exactness of +,-,* on small dyadic data"]
@@ -64,11 +66,12 @@ def _known_ids():
 
 def regenerate(ROOT, REPO):
     """ShapeConnectionPin::directions() is regenerated from connectionpin.cpp by cpp2lean on every run and
-    proved equal to Model/Pins.pinDirections (Props/C11Tie.lean)"""
+    proved equal to Model/Pins.pinDirections (Props/C11Tie.lean); so is ShapeConnectionPin::operator< (the order of every
+    shape's pin set), proved a strict weak order whose equivalence is equality of all six keys"""
     import sys
     sys.path.insert(0, str(Path(ROOT) / "tools" / "cpp2lean"))
     import jobs
-    return jobs.regenerate(["pindirs"], Path(ROOT), Path(REPO))
+    return jobs.regenerate(["pindirs", "comparators"], Path(ROOT), Path(REPO))
 
 
 def plan(tier, seed, searching):
